@@ -28,14 +28,68 @@
 #include <iostream>
 #include <algorithm>
 
+// ---- observation of the temp files (no edit of /repo): this executable's definitions of
+// mkstemp / ftruncate / write win over libc's for the statically linked kenlm_util.
+// Sort creates its temporaries in the order data, offsets-log, [data2, offsets-log2]; every
+// Offsets::Reset truncates its log; every log entry is one 16-byte write.  So the complete
+// content of every Offsets log ever written ("generation") is observed.
+#include <dlfcn.h>
+#include <pthread.h>
 static volatile long g_ftruncs = 0;
-extern "C" int ftruncate(int fd, off_t len) {
+static pthread_mutex_t g_mu = PTHREAD_MUTEX_INITIALIZER;
+static const int kMaxFd = 4096;
+static int g_role[kMaxFd];            // 0 unknown, 1 data temp, 2 offsets log temp
+static int g_gen_of_fd[kMaxFd];       // index into g_gens of the generation being written, -1 = none yet
+static int g_temp_count = 0;
+static bool g_observe = false;
+struct Gen { std::vector<std::pair<uint64_t, uint64_t> > entries; };
+static std::vector<Gen> *g_gens = NULL;
+
+static void ObserveReset() {
+  pthread_mutex_lock(&g_mu);
+  for (int i = 0; i < kMaxFd; ++i) { g_role[i] = 0; g_gen_of_fd[i] = -1; }
+  g_temp_count = 0;
+  if (!g_gens) g_gens = new std::vector<Gen>();
+  g_gens->clear();
+  g_ftruncs = 0;
+  g_observe = true;
+  pthread_mutex_unlock(&g_mu);
+}
+
+static int TempCommon(const char *sym, char *tmpl) {
+  typedef int (*Fn)(char *);
+  Fn real = (Fn)dlsym(RTLD_NEXT, sym);
+  int fd = real(tmpl);
+  pthread_mutex_lock(&g_mu);
+  if (g_observe && fd >= 0 && fd < kMaxFd) {
+    g_role[fd] = (g_temp_count % 2 == 0) ? 1 : 2;
+    g_gen_of_fd[fd] = -1;
+    ++g_temp_count;
+  }
+  pthread_mutex_unlock(&g_mu);
+  return fd;
+}
+extern "C" int mkstemp(char *tmpl) { return TempCommon("mkstemp", tmpl); }
+extern "C" int mkstemp64(char *tmpl) { return TempCommon("mkstemp64", tmpl); }
+static int TruncCommon(int fd, off_t len) {
   __sync_fetch_and_add(&g_ftruncs, 1);
+  pthread_mutex_lock(&g_mu);
+  if (g_observe && fd >= 0 && fd < kMaxFd && g_role[fd] == 2 && len == 0) g_gen_of_fd[fd] = -1;
+  pthread_mutex_unlock(&g_mu);
   return (int)syscall(SYS_ftruncate, fd, len);
 }
-extern "C" int ftruncate64(int fd, off_t len) {
-  __sync_fetch_and_add(&g_ftruncs, 1);
-  return (int)syscall(SYS_ftruncate, fd, len);
+extern "C" int ftruncate(int fd, off_t len) { return TruncCommon(fd, len); }
+extern "C" int ftruncate64(int fd, off_t len) { return TruncCommon(fd, len); }
+extern "C" ssize_t write(int fd, const void *buf, size_t count) {
+  if (g_observe && fd >= 0 && fd < kMaxFd && g_role[fd] == 2 && count == 16) {
+    pthread_mutex_lock(&g_mu);
+    if (g_gen_of_fd[fd] < 0) { g_gens->push_back(Gen()); g_gen_of_fd[fd] = (int)g_gens->size() - 1; }
+    uint64_t e[2];
+    memcpy(e, buf, 16);
+    (*g_gens)[g_gen_of_fd[fd]].entries.push_back(std::make_pair(e[0], e[1]));
+    pthread_mutex_unlock(&g_mu);
+  }
+  return (ssize_t)syscall(SYS_write, fd, buf, count);
 }
 
 using namespace util::stream;
@@ -169,7 +223,7 @@ template <class Compare, class Combine> static void RunAndReport(const Case &c, 
     const std::vector<uint8_t> &data, const std::vector<uint64_t> &counts) {
   std::vector<uint8_t> out;
   std::string mret, lazy_used;
-  g_ftruncs = 0;
+  ObserveReset();
   try {
     RunSort<Compare, Combine>(c, compare, combine, data, counts, out, mret, lazy_used);
   } catch (const BadSortConfig &e) {
@@ -190,8 +244,28 @@ template <class Compare, class Combine> static void RunAndReport(const Case &c, 
   { std::ostringstream s;
     if (ft == 1) s << 0; else if (ft >= 4 && (ft - 2) % 2 == 0) s << (ft - 2) / 2; else s << "ft" << ft;
     passes = s.str(); }
+  // Offsets logs observed: count, FNV over all (length, run) entries with a separator per log, and the
+  // first entries for diagnostics
+  uint64_t lh = kFnvOff;
+  std::ostringstream lshow;
+  pthread_mutex_lock(&g_mu);
+  g_observe = false;
+  std::size_t ngen = g_gens->size();
+  for (std::size_t g = 0; g < ngen; ++g) {
+    const Gen &G = (*g_gens)[g];
+    for (std::size_t i = 0; i < G.entries.size(); ++i) {
+      uint64_t e[2] = { G.entries[i].first, G.entries[i].second };
+      lh = Fnv(lh, reinterpret_cast<const uint8_t*>(e), 16);
+      if (g < 4 && i < 5) lshow << (i ? "," : "") << e[0] << "*" << e[1];
+    }
+    uint8_t sep = 0xAA;
+    lh = Fnv(lh, &sep, 1);
+    if (g < 4) lshow << ";";
+  }
+  pthread_mutex_unlock(&g_mu);
   std::cout << "M n_out=" << n_out << " keyhash=" << kh << " mset=" << ms << " seq=" << sq
-            << " passes=" << passes << " mret=" << mret << " lazy=" << lazy_used << std::endl;
+            << " passes=" << passes << " mret=" << mret << " lazy=" << lazy_used
+            << " logs=" << ngen << ":" << lh << " logshow=" << lshow.str() << std::endl;
   // ---- O line: the property, computed directly
   bool sorted_ok = true;
   for (uint64_t i = 1; i < n_out; ++i) if (compare(&out[i * rs], &out[(i - 1) * rs])) { sorted_ok = false; break; }
